@@ -52,5 +52,9 @@ def run(ctx):
     for name, consts, num in sims:
         mx, table, c = AG.emit(rep, name, consts, simulate="num=%d" % num, depth=60, seed=ctx.seed + 3, workers=1)
         AG.replay_all(ctx, rep, mx, table, c, KINDS, label=name + ":")
+    # code -> spec: executions recorded from the real library (random programs over a wide slice of the API, the repository's own tests)
+    # are validated by TLC against the structural specification Tape.tla (TapeTrace.tla)
+    from .. import tape_common as TC
+    TC.tapes_part(ctx, rep, 60 if ctx.quick else 1500, True)
     rep.exhaustive = False
     return rep.finish()
